@@ -220,12 +220,16 @@ func (e *iterEnv) inUse() int {
 // depends on who won, and is not compared.)
 func closeAfterCancel(r *rng, addViol func(violation)) {
 	s := iterScript{hasout: true, runKind: "rows", failK: -1, closeErr: -1}
-	nrows := 1 + r.intn(4)
+	nrows := 1 + r.intn(7)
 	for i := 0; i < nrows; i++ {
 		s.rows = append(s.rows, iterRow{id: 10 + i, ok: true})
 	}
 	e := setupIter(s)
 	defer e.finish()
+	if r.chance(1, 3) {
+		getAllCancelledByDriver(e, r, nrows, addViol)
+		return
+	}
 	e.f.closeDelay = time.Duration(100+r.intn(400)) * time.Microsecond
 	iter := e.q.Iter()
 	k := r.intn(nrows + 1)
@@ -236,7 +240,21 @@ func closeAfterCancel(r *rng, addViol func(violation)) {
 	if w := r.intn(4); w > 0 {
 		time.Sleep(time.Duration(w*50) * time.Microsecond)
 	}
-	iter.Close()
+	// C14: the caller may go on fetching straight after the cancellation.  Either every row is still
+	// delivered (the cancellation came too late to matter) or the iteration ends early and Close
+	// reports why: an early end is never presented as the normal end of the result set.
+	delivered := k
+	drained := r.chance(1, 2)
+	if drained {
+		for iter.Next() {
+			delivered++
+		}
+	}
+	cerr := iter.Close()
+	if drained && delivered < nrows && cerr == nil {
+		addViol(violation{"C14", "iteration-ended-early-by-cancellation-reported-as-normal-end", hx(fmt.Sprintf("rows=%d next=%d cancel drain close", nrows, k)),
+			fmt.Sprintf("context cancelled after %d of %d rows; Next then delivered %d rows in all and returned false; Close returned nil", k, nrows, delivered)})
+	}
 	e.f.mu.Lock()
 	opened, closed := e.f.rowsOpened, e.f.rowsClosed
 	e.f.mu.Unlock()
@@ -244,6 +262,34 @@ func closeAfterCancel(r *rng, addViol func(violation)) {
 	if opened != closed || inuse != 0 {
 		addViol(violation{"C13", "close-returned-before-the-result-set-was-released", hx(fmt.Sprintf("rows=%d next=%d cancel close", nrows, k)),
 			fmt.Sprintf("context cancelled after %d of %d rows, then Close: when Close returned opened=%d closed=%d connections in use=%d", k, nrows, opened, closed, inuse)})
+	}
+}
+
+// getAllCancelledByDriver: the context ends while the driver is fetching a row in the middle of GetAll.
+// GetAll returns all the rows, or an error.
+func getAllCancelledByDriver(e *iterEnv, r *rng, nrows int, addViol func(violation)) {
+	at := r.intn(nrows)
+	n := 0
+	e.f.mu.Lock()
+	e.f.gate = func(ev event) {
+		if ev.Kind == "rowsnext" {
+			if n == at {
+				e.cancel()
+			}
+			n++
+		}
+	}
+	e.f.mu.Unlock()
+	var ps []Person
+	err := e.q.GetAll(&ps)
+	e.f.mu.Lock()
+	e.f.gate = nil
+	e.f.mu.Unlock()
+	if err == nil && len(ps) != nrows {
+		addViol(violation{"C14", "iteration-ended-early-by-cancellation-reported-as-normal-end", hx(fmt.Sprintf("rows=%d getall, context cancelled while fetching row %d", nrows, at)),
+			fmt.Sprintf("GetAll returned nil with %d of %d rows", len(ps), nrows)})
+		addViol(violation{"C15", "getall-returned-nil-with-part-of-the-rows", hx(fmt.Sprintf("rows=%d getall, context cancelled while fetching row %d", nrows, at)),
+			fmt.Sprintf("GetAll returned nil with %d of %d rows", len(ps), nrows)})
 	}
 }
 
